@@ -461,6 +461,23 @@ func runLease(e *exec) {
 				}
 			}
 		}
+		// truncation of the intact file at every byte offset (a crash of whatever wrote it in place,
+		// a full disk, a copy cut short): what loads is made of bindings of the intact file
+		tstride := 1
+		if !thorough && len(final) > 1500 {
+			tstride = 2
+		}
+		for L := 0; L < len(final); L += tstride {
+			got, w2 := l.restartWith(fmt.Sprintf("file truncated to %d of %d bytes", L, len(final)), final[:L], true)
+			if got != nil {
+				l.checkDamaged(fmt.Sprintf("the intact file truncated to %d of %d bytes (%q...)", L, len(final), tailBytes(final[:L], 24)), "truncated"+illTyped(final[:L]), got, ref)
+			}
+			l.shutdown(w2)
+			corr++
+			if e.fatal {
+				return
+			}
+		}
 		lines := bytes.SplitAfter(final, []byte("\n"))
 		for i := range lines {
 			var del, dup []byte
